@@ -22,8 +22,10 @@ the reader / writer drivers).
  S3-strto-no-digits-rejected  same walk assuming no conversion was performed (result 0, end == the input pointer, so `*end` has
                            whatever is known about `*input` at the call): the empty string / a lone sign is not accepted as 0.
                            Only for functions whose error convention is `throw` (for str_to_int 0 *is* the error value).
- S4-strto-leading-space-rejected  the strto* call is reached only when isspace(*input) was false (strto* would skip it);
-                           str_to_int is exempt (documented: leading white space is ignored).
+ S4-strto-leading-space-rejected  assuming the first input character is white space (isspace: 9..13, 32) from the function's entry
+                           on, the strto* call is unreachable or nothing converted is returned after it (strto* would skip it); the
+                           guard may be spelled any way, named as a bool local or live in a helper.  str_to_int is exempt
+                           (documented: leading white space is ignored).
  S5-strtoul-minus-rejected  strtoul / strtoull accept a leading '-' and negate in the unsigned type: assuming the input starts with
                            '-' from the function's entry on (`*p` and `p[0]`), the call is unreachable or no return of the converted
                            value is reachable after it (an upper bound cannot exclude wrapped values; string_to_ulong's "-1" -> 0
@@ -630,49 +632,52 @@ def rule_strto(R, fns):
             if not value_conv:
                 run_mode('S3-strto-no-digits-rejected', 'converts nothing (returns 0 with end == input)',
                          lambda pre, st: [({endkey: pre.get(srckey, (-128, 127))}, (0, 0))], 'no-digits')
-            if rt[0] == 0:
-                # S5: strtoul / strtoull accept a leading '-' and negate in the unsigned type ("-18446744073709551615" -> 1):
-                # assume the input starts with '-' from the entry of the function on (both spellings `*p` / `p[0]`)
-                a0 = _arg_text(fn, args[0])
-                seeds = {('e', '*' + a0): (45, 45), ('e', a0 + '[0]'): (45, 45)}
-                state = {'hit': False, 'lost': False}
+            a0 = _arg_text(fn, args[0])
 
-                def minus_hook(it, st, vals, n, seeds=seeds, state=state):
-                    pre = dict(st)
-                    it.eval(n['id'], st, vals)
-                    state['hit'] = True
-                    if not all(pre.get(k) == (45, 45) for k in seeds):
-                        state['lost'] = True      # the first character is no longer tracked at the call
-                    s2 = dict(st)
-                    s2[('x', 'after')] = (1, 1)
-                    s2[endkey] = (0, 0)
-                    return [(s2, rt)]             # any (wrapped) value, input fully consumed
-                it5 = U.Interp(fn, hooks={call['id']: minus_hook}, init=dict(seeds))
-                it5.run()
-                key5 = _k('%s#%s:leading-minus' % (fn.q, name))
-                if it5.res.truncated or state['lost']:
-                    R.broken('S5: cannot follow the first input character of %s up to the %s call' % (fn.q, name))
-                elif not state['hit']:
-                    R.ok('S5-strtoul-minus-rejected', key5, site, 'the call is unreachable when %s is \'-\'' % ('*' + a0))
+            def first_char_walk(rule, label, intervals, what, example):
+                """assume the first input character lies in one of `intervals` from the entry of the function on (both
+                spellings `*p` / `p[0]` are one location): the call is unreachable, or nothing converted is returned after it"""
+                key = _k('%s#%s:%s' % (fn.q, name, label))
+                verdicts = []
+                for iv in intervals:
+                    seeds = {('e', '*' + a0): iv}
+                    state = {'hit': False, 'lost': False}
+
+                    def hook(it, st, vals, n, seeds=seeds, state=state, iv=iv):
+                        pre = dict(st)
+                        it.eval(n['id'], st, vals)
+                        state['hit'] = True
+                        got = pre.get(('e', '*' + a0))
+                        if got is None or not U.inside(got, iv):
+                            state['lost'] = True      # the first character is no longer tracked at the call
+                        s2 = dict(st)
+                        s2[('x', 'after')] = (1, 1)
+                        s2[endkey] = (0, 0)
+                        return [(s2, rt)]             # any value, input fully consumed
+                    itw = U.Interp(fn, hooks={call['id']: hook}, init=dict(seeds))
+                    itw.run()
+                    if itw.res.truncated or state['lost']:
+                        R.broken('%s: cannot follow the first input character of %s up to the %s call' % (rule, fn.q, name))
+                        return
+                    if state['hit']:
+                        bad, _rej = _outcome(fn, itw)
+                        if bad is not None:
+                            verdicts.append(bad)
+                if verdicts:
+                    bad = verdicts[0]
+                    R.bad(rule, key, site, '%s in %s is reached with an input that starts with %s and the converted value reaches `%s`: %s'
+                          % (name, fn.q, what, fn.expr(bad) if bad in fn.nodes else 'end of function', example))
                 else:
-                    bad, _rej = _outcome(fn, it5)
-                    R.check(bad is None, 'S5-strtoul-minus-rejected', key5, site,
-                            '%s in %s is reached with an input that starts with \'-\': %s negates in the unsigned type and the wrapped '
-                            'value reaches `%s`, e.g. "-18446744073709551615" is returned as 1 (an upper bound does not exclude wrapped values)'
-                            % (name, fn.q, name, fn.expr(bad) if bad in fn.nodes else 'end of function'),
-                            'every path after the call rejects')
+                    R.ok(rule, key, site, 'with a first character that is %s the call is unreachable or every path after it rejects' % what)
+            if rt[0] == 0:
+                # S5: strtoul / strtoull accept a leading '-' and negate in the unsigned type
+                first_char_walk('S5-strtoul-minus-rejected', 'leading-minus', [(45, 45)], "'-'",
+                                '%s negates in the unsigned type, e.g. "-18446744073709551615" is returned as 1 (an upper bound does not '
+                                'exclude wrapped values)' % name)
             if not value_conv:
-                gs = guards(fn, call['id'])
-                want = srckey[1]
-                ok = False
-                for (c, sense, _b) in gs:
-                    cn = fn.sn(c)
-                    if sense is False and cn is not None and cn.get('k') == 'call' and cn.get('q', '').rsplit('::', 1)[-1] == 'isspace' \
-                            and cn.get('args') and _arg_text(fn, cn['args'][0]) == want:
-                        ok = True
-                R.check(ok, 'S4-strto-leading-space-rejected', _k('%s#%s:leading-space' % (fn.q, name)), site,
-                        '%s in %s is not guarded by !isspace(%s): %s skips leading white space, so " 1" would be accepted'
-                        % (name, fn.q, want, name), 'the call is dominated by the false edge of isspace(%s)' % want)
+                # S4: strto* skip leading white space (isspace: 9..13 and 32)
+                first_char_walk('S4-strto-leading-space-rejected', 'leading-space', [(32, 32), (9, 13)], 'white space',
+                                '%s skips leading white space, so " 1" would be accepted' % name)
 
 
 # ------------------------------------------------------------------------------------------------ A2
